@@ -24,10 +24,10 @@ KANI = {}
 
 
 def K(name, label, props, fns, desc, cfgs=('sse2', 'generic'), tier='quick', timeout=900, mem=3,
-      bound=None, module='k', expect_unsat_covers=()):
+      bound=None, module='k', expect_unsat_covers=(), supplementary_for=()):
     KANI[name] = dict(name=name, path='raw::verif::%s::%s' % (module, name), label=label, props=list(props),
                       fns=list(fns), desc=desc, cfgs=list(cfgs), tier=tier, timeout=timeout, mem=mem,
-                      bound=bound, expect_unsat_covers=list(expect_unsat_covers))
+                      bound=bound, expect_unsat_covers=list(expect_unsat_covers), supplementary_for=list(supplementary_for))
 
 
 # ---- pure arithmetic / bit level (complete over the full machine domain) ----
@@ -53,7 +53,8 @@ K('h_move_next', 'C', ['C17', 'C13'], ['ProbeSeq::move_next'],
 K('h_h1', 'C', ['C17'], ['h1'], 'h1: low bits of the hash')
 K('h_probe_cycle', 'B', ['C17', 'C13'], ['ProbeSeq::move_next'],
   'probe sequence visits every group once before repeating: tables of 1..64 groups, every start position',
-  bound='groups <= 64 (unbounded statement: Verus lemma L1)', timeout=1800)
+  bound='groups <= 64 (the unbounded statement is Verus lemma lemma_probe_distinct in unit arith)', timeout=1800,
+  supplementary_for=['C17'])
 K('h_std_specs', 'C', ['C17'], ['usize::next_power_of_two', 'usize::is_power_of_two'],
   'std specs assumed by the Verus preludes, discharged against real std over the full domain')
 K('h_tag', 'C', ['C18', 'C01'], ['Tag::full', 'Tag::is_full', 'Tag::is_special', 'Tag::special_is_empty'],
@@ -194,7 +195,7 @@ VERUS = {
                  desc='control-byte logic of the table core on extracted text over a Vec<u8> view of the control array, all table sizes, both widths: set_ctrl (mirror index, mirror invariant, frame), set_ctrl_hash, replace_ctrl_hash, is_bucket_full, record_item_insert_at (accounting F1), erase (EMPTY/DELETED, accounting, frame, no tombstone below one group), Tag, probe_seq; every control-byte access in bounds',
                  paired={}),
     'arith': dict(props=['C17', 'C08', 'C12', 'C13'], tier='quick',
-                  desc='capacity / layout / probe-step arithmetic and lemmas, all inputs, both group widths',
+                  desc='capacity / layout / probe-step arithmetic on extracted text, and the probe-cycle theorem (triangular numbers are distinct modulo 2^g; k calls of move_next reach (start + W*k(k+1)/2) mod n; the first n/W positions are pairwise different and group-aligned), all inputs, all table sizes, both group widths',
                   # Verus function -> the complete CBMC obligation proving the same contract (used for the
                   # brittleness exception and to search for a failing input)
                   paired={'capacity_to_buckets': 'h_capacity_to_buckets',
